@@ -4,10 +4,15 @@ from .. import vlib
 
 TRUSTED = [
     "Lean 4.33 kernel; axioms per theorem listed under coverage.axioms (subset of propext, Classical.choice, Quot.sound)",
-    "translate/units.py (Units.hpp, UnitSystem.{hpp,cpp}, keyword JSON, shape of DeckItem.cpp -> Gen/Units.lean); "
+    "translate/units.py (Units.hpp, UnitSystem.{hpp,cpp}, keyword JSON, shape of DeckItem.cpp -> Gen/Units.lean; "
+    "FieldProps.hpp unit strings, UnitSystem::uda_dim, Summary.cpp mul_unit/div_unit, item->string index table -> Gen/UnitsUse.lean); "
     "cross-checked on every run by the bit-exact correspondence (every constant, table entry, named dimension and "
     "keyword dimension string is also asked from the real code)",
-    "Proofs/UnitsSpec.lean: the hand-written SI definitions and measure compositions the tables are proved equal to",
+    "Proofs/UnitsSpec.lean: the hand-written SI definitions and measure compositions the tables are proved equal to; "
+    "Proofs/UnitsUseSpec.lean: the specification's reading of a composite string, UDA control -> deck item, and the "
+    "exception lists in the theorem statements (udaOpen = [WCONINJE_RESV, WCONPROD_RESV, GCONINJE_RESV_MAX_RATE, WCONPROD_LIFT], the open findings; inputLacks = [Ymodule]; "
+    "fieldPropsOpen / fieldPropsMismatchOpen are empty since fix 0d2fae2e6)",
+    "modelled, not verified: Summary.cpp mul_unit/div_unit (anonymous namespace) are tied by the translator only",
     "harness/units.cpp + lib/vlib.py differ; model driver (compiled Lean)",
     "modelled, not verified: IEEE rounding (theorems are exact over Rat / any field of characteristic 0; the Float run "
     "of the same expressions is compared bit for bit, and the real doubles are checked against the exact rationals "
@@ -20,7 +25,9 @@ TRUSTED = [
 def run(ctx):
     ctx.assumptions += [
         "doubles cross the protocol as IEEE bit patterns; the build has no FMA contraction (x86-64 baseline)",
-        "\"X/\" and \"/\" are never sent to UnitSystem::parse (it indexes parts[1] of a one-element vector)",
+        "\"X/\" and \"/\": UnitSystem::parse refuses them (std::invalid_argument, fix ee5075475, kept in dc1eee513); the harness probes this in a "
+        "forked child first and sends such strings only if the tree under test refuses them (a tree without the guard "
+        "indexes parts[1] of a one-element vector: property key parse.trailing_slash fails, theorem parse_never_ub_iff)",
     ]
     ctx.stage_translate(["units"])
     if not ctx.stage_build_opm():
